@@ -354,9 +354,7 @@ def r4(ctx):
     fr = ctx.func("whatshap.pedigree.find_recombination")
     evs = [c for c in ctx.prog.calls_in(fr.node) if u(c.func) == "RecombinationEvent"]
     ctx.require(len(evs) == 1, "RecombinationEvent construction not found")
-    exprs = [u(x) for x in evs[0].args[2:6]]
-    tvn = "block_transmission_vector"
-    ok = exprs == ["%s[i - 1] %% 2" % tvn, "%s[i] %% 2" % tvn, "%s[i - 1] // 2" % tvn, "%s[i] // 2" % tvn]
+    ok, exprs = c20.decode_layout(evs[0])
     cls = ctx.prog.cls("whatshap.pedigree.RecombinationEvent")
     fields = [n.target.id for n in cls.node.body if isinstance(n, ast.AnnAssign)]
     ok = ok and fields[2:6] == ["transmitted_hap_father1", "transmitted_hap_father2", "transmitted_hap_mother1", "transmitted_hap_mother2"]
